@@ -258,6 +258,8 @@ func (rsc *service) updatePodGPUGroup(
 
 	err = rsc.kubeClient.Patch(ctx, pod, client.MergeFrom(originalPod))
 	if err != nil {
+		// keep the in-memory pod in line with the API: the rollback removes exactly the group labels it sees here
+		pod.Labels = originalPod.Labels
 		return fmt.Errorf("failed to patch pod <%s/%s> with GPU group label: %v", pod.Namespace, pod.Name, err)
 	}
 
